@@ -222,6 +222,7 @@ pub fn run(ctx: &Ctx, rep: &mut Report) {
         let mut local: Vec<(Address, [u8; 32], [u8; 32])> = Vec::new(); // (deployer, salt, id)
         let mut canon: Vec<(Address, [u8; 32])> = Vec::new();
         let mut remote: Vec<[u8; 32]> = Vec::new();
+        let mut canon_taken_remotely: Vec<Address> = Vec::new();
         let mut alive = true;
         let mut opseq: Vec<&str> = OPS.to_vec();
         rng.shuffle(&mut opseq);
@@ -474,9 +475,22 @@ pub fn run(ctx: &Ctx, rep: &mut Report) {
                 }
                 "register-canonical-fresh" | "register-canonical-again" => {
                     let (tok, again) = if op == "register-canonical-again" {
-                        match canon.last() {
-                            Some((t, _)) => (t.clone(), true),
-                            None => continue,
+                        // registered before, or its id was taken by a remote deploy message
+                        let pick_remote = !canon_taken_remotely.is_empty() && (canon.is_empty() || rng.chance(1, 2));
+                        if pick_remote {
+                            let t = canon_taken_remotely.last().unwrap().clone();
+                            // only if that remote deployment really took the id
+                            let cid = w.view_canonical_id(&t);
+                            if !w.model.tokens.contains_key(&cid) {
+                                continue;
+                            }
+                            rep.count("register-canonical-taken-remotely");
+                            (t, true)
+                        } else {
+                            match canon.last() {
+                                Some((t, _)) => (t.clone(), true),
+                                None => continue,
+                            }
                         }
                     } else {
                         let admin = w.users[3].clone();
@@ -515,7 +529,20 @@ pub fn run(ctx: &Ctx, rep: &mut Report) {
                 _ => {
                     // remote deploy messages
                     let (id, taken): ([u8; 32], bool) = match op {
-                        "remote-deploy-fresh" => (rng.bytes32(), false),
+                        "remote-deploy-fresh" => {
+                            if rng.chance(1, 3) {
+                                // the id a not yet registered token would get as a canonical token
+                                let admin = w.users[3].clone();
+                                let kind = if rng.chance(1, 2) { TokKind::Sac } else { TokKind::Native };
+                                let t = make_token(&mut w.u, kind, &admin, &mut rng).addr;
+                                let cid = w.view_canonical_id(&t);
+                                canon_taken_remotely.push(t);
+                                rep.count("remote-deploy-for-a-canonical-id");
+                                (cid, false)
+                            } else {
+                                (rng.bytes32(), false)
+                            }
+                        }
                         "remote-deploy-taken-locally" => match local.last() {
                             Some((_, _, id)) => (*id, true),
                             None => continue,
